@@ -186,6 +186,17 @@ func (c *Counter) Add(n int64) {
 			debugPrintf("Add %q += %d: locked extra=%d\n", c.name, n, state.extra())
 			return
 
+		case !state.havePtr() && state.readers() > 0:
+			// havePtr was cleared while readers are still using c.ptr.
+			// The lock cannot be taken until they are done: record the
+			// count in extra, which the last reader flushes when it
+			// upgrades to the full lock in releaseReader.
+			if !c.state.update(&state, state.addExtra(uint64(n))) {
+				continue
+			}
+			debugPrintf("Add %q += %d: readers draining extra=%d\n", c.name, n, state.extra())
+			return
+
 		case !state.havePtr():
 			if !c.state.update(&state, state.addExtra(uint64(n)).setLocked()) {
 				continue
